@@ -630,4 +630,400 @@ theorem rinit_schema (schema : List (List String × C02.Kind)) (bolt : Bool) (fp
 
 end write
 
+
+/-! ### read side: the pre-filter -/
+
+section read
+
+theorem uuidAt_of {p : Points} {n : Nat} {u : Uuid} (h : C01.AL.get p.nI n = some u) : uuidAt p n = u := by
+  simp [uuidAt, h]
+
+theorem abs_get_live {p : Points} (hp : PInv p) {n : Nat} {u : Uuid} (h : C01.AL.get p.nI n = some u) :
+    C01.AL.get (C01.absP p) u = some (C01.AL.get p.nD n) := by
+  simp only [C01.get_absP, (hp.bij u n).mpr h, Option.map_some]
+
+/-- a uuid the reference map knows is live under exactly one node id, and that id is small -/
+theorem abs_get_some {lower : Bytes → Bytes} {cv : Conv} {st : State} (hI : Inv lower cv st) {u : Uuid} {doc : Data}
+    (h : C01.AL.get (C01.abs st.shard) u = some doc) :
+    ∃ n, C01.AL.get st.shard.pts.nI n = some u ∧ n < idBound ∧ doc = C01.AL.get st.shard.pts.nD n := by
+  simp only [C01.abs, C01.get_absP] at h
+  cases hg : C01.AL.get st.shard.pts.pI u with
+  | none => rw [hg] at h; cases h
+  | some n =>
+    rw [hg] at h
+    simp only [Option.map_some, Option.some.injEq] at h
+    have hn := (hI.store.pts.bij u n).mp hg
+    exact ⟨n, hn, hI.liveBound n u hn, h.symm⟩
+
+/-- the pre-filter test of a ranking index on a live node id is the filter tree evaluated on the
+point's DOCUMENT (C02_tree + the bridge of Lemmas.lean) -/
+theorem pass_iff {lower : Bytes → Bytes} {cv : Conv} {st : State} (hI : Inv lower cv st) (f : Option C02.Query)
+    (hwf : filterWf (st.view cv) f = true) (hv : ∀ q, f = some q → q.Valid) {i : C02.Id} {u : Uuid}
+    (hl : C01.AL.get st.shard.pts.nI i.toNat = some u) :
+    passOf lower (st.view cv) f i = true ↔ ∀ q, f = some q → docSat lower st.schema q u (docAt cv st.shard.pts i) := by
+  cases f with
+  | none => simp [passOf]
+  | some q =>
+    have h1 := C02.C02_tree lower (view_inv hI) q hwf (hv q rfl) i
+    have h2 := sat_iff hI hl q
+    simp only [passOf, List.contains_iff_mem, Option.some.injEq, forall_eq']
+    rw [h1, h2]
+
+/-! ### SPEC: exact answers of the ranking leaves on the reference map, up to ties -/
+
+section flat
+variable [LinearOrder D]
+
+/-- `A` (uuid, distance — in answer order) is an exact `limit`-nearest-neighbour answer of the vector query
+on the reference map: candidates only, each once, nearest first, at most `limit`, and a candidate is left
+out only when `limit` rows are returned and none of them is farther -/
+structure IsFlatAnswer (lower : Bytes → Bytes) (cv : Conv) (env : Env V T D S W) (schema : List (List String × C02.Kind))
+    (coll : C01.Coll) (path : List String) (qv : V) (limit : Nat) (f : Option C02.Query) (A : List (Uuid × D)) : Prop where
+  nodup : (A.map (·.1)).Nodup
+  cand : ∀ a ∈ A, FlatCand lower cv env schema coll path qv f a.1 a.2
+  sorted : A.Pairwise (fun a b => a.2 ≤ b.2)
+  short : A.length ≤ limit
+  complete : ∀ u d, FlatCand lower cv env schema coll path qv f u d → u ∉ A.map (·.1) →
+    A.length = limit ∧ ∀ a ∈ A, a.2 ≤ d
+
+theorem vecAt_none (env : Env V T D S W) (path : List String) : vecAt env path none = none := by
+  simp [vecAt, C02.getProp]
+
+theorem find?_path {α : Type} (pathOf : α → List String) {l : List α} {path : List String} {x : α}
+    (h : l.find? (fun y => pathOf y == path) = some x) : x ∈ l ∧ pathOf x = path := by
+  refine ⟨List.mem_of_find?_eq_some h, ?_⟩
+  have := List.find?_some h
+  exact eq_of_beq this
+
+/-- **the flat leaf.** In a state satisfying the invariant, `flat.Search` — for ANY enumeration order of the
+store — returns live node ids, each once, and read as (uuid, distance) its answer is an exact
+`limit`-nearest-neighbour answer on the reference map. -/
+theorem flat_leaf_ref {lower : Bytes → Bytes} {cv : Conv} {env : Env V T D S W} {rs : RState V T} [DecidableEq T]
+    (hR : RInv lower cv env rs) (orc : SOracle V T S) {path : List String} {fx : FlatIx V} (hfx : rs.flat path = some fx)
+    (qv : V) (limit : Nat) (f : Option C02.Query)
+    (hfw : filterWf (rs.base.view cv) f = true) (hfv : ∀ q, f = some q → q.Valid)
+    (henum : (orc.enum fx.store).Perm fx.store) :
+    ((flatSearch lower cv env orc rs fx qv limit f).map (·.id.toNat)).Nodup ∧
+    (∀ r ∈ flatSearch lower cv env orc rs fx qv limit f, ∃ u, C01.AL.get rs.base.shard.pts.nI r.id.toNat = some u) ∧
+    IsFlatAnswer lower cv env rs.base.schema (C01.abs rs.base.shard) path qv limit f
+      ((flatSearch lower cv env orc rs fx qv limit f).map fun r => (uuidAt rs.base.shard.pts r.id.toNat, r.d)) := by
+  have hI := hR.base
+  have hp := hI.store.pts
+  obtain ⟨hmem, hpath⟩ := find?_path (fun fx : FlatIx V => fx.path) hfx
+  obtain ⟨hkn, hg⟩ := hR.flat fx hmem
+  rw [hpath] at hg
+  generalize hE : orc.enum fx.store = E at henum
+  have hEn : (E.map (·.1)).Nodup := (henum.map (fun e : C04.Id × V => e.1)).nodup_iff.2 hkn
+  have hEm : ∀ i v, (i, v) ∈ E ↔ vecAt env path (docAt cv rs.base.shard.pts i) = some v := by
+    intro i v
+    rw [henum.mem_iff, ← hg]
+    exact ⟨C01.AL.get_of_mem hkn, C01.AL.mem_of_get⟩
+  have hlive : ∀ i v, (i, v) ∈ E → ∃ u, C01.AL.get rs.base.shard.pts.nI i.toNat = some u := by
+    intro i v hiv
+    have h1 := (hEm i v).1 hiv
+    cases hd : C01.AL.get rs.base.shard.pts.nD i.toNat with
+    | none =>
+      have : docAt cv rs.base.shard.pts i = none := by simp [docAt, hd]
+      rw [this, vecAt_none] at h1; cases h1
+    | some d =>
+      have := hp.nD_live i.toNat (by rw [hd]; rfl)
+      cases hn : C01.AL.get rs.base.shard.pts.nI i.toNat with
+      | none => rw [hn] at this; cases this
+      | some u => exact ⟨u, rfl⟩
+  -- candidates of the enumeration = candidates of the reference map
+  have hcand_of : ∀ i v u, (i, v) ∈ E → passOf lower (rs.base.view cv) f i = true →
+      C01.AL.get rs.base.shard.pts.nI i.toNat = some u →
+      FlatCand lower cv env rs.base.schema (C01.abs rs.base.shard) path qv f u (env.dist qv v) := by
+    intro i v u hiv hps hl
+    exact ⟨C01.AL.get rs.base.shard.pts.nD i.toNat, v, abs_get_live hp hl, (hEm i v).1 hiv, rfl,
+      (pass_iff hI f hfw hfv hl).1 hps⟩
+  have hof_cand : ∀ u d, FlatCand lower cv env rs.base.schema (C01.abs rs.base.shard) path qv f u d →
+      ∃ i v, C01.AL.get rs.base.shard.pts.nI i.toNat = some u ∧ (i, v) ∈ E ∧
+        passOf lower (rs.base.view cv) f i = true ∧ d = env.dist qv v := by
+    rintro u d ⟨doc, v, hget, hvec, hd, hsat⟩
+    obtain ⟨n, hn, hlt, rfl⟩ := abs_get_some hI hget
+    have hl : C01.AL.get rs.base.shard.pts.nI (nid n).toNat = some u := by rw [nid_toNat hlt]; exact hn
+    have hdoc : docAt cv rs.base.shard.pts (nid n) = idxData cv (C01.AL.get rs.base.shard.pts.nD n) := docAt_nid cv _ hlt
+    refine ⟨nid n, v, hl, (hEm _ _).2 (by rw [hdoc]; exact hvec), (pass_iff hI f hfw hfv hl).2 ?_, hd⟩
+    rw [hdoc]; exact hsat
+  -- C04 on this enumeration
+  have hknn := C04.search_isKNN .ge limit (passOf lower (rs.base.view cv) f) (env.dist qv) E
+  have hres : flatSearch lower cv env orc rs fx qv limit f =
+      C04.search .ge limit (passOf lower (rs.base.view cv) f) (env.dist qv) E := by
+    unfold flatSearch; rw [hE]
+  rw [hres]
+  generalize C04.search .ge limit (passOf lower (rs.base.view cv) f) (env.dist qv) E = res at hknn
+  have hrc : ∀ r ∈ res, ∃ it, it ∈ E ∧ passOf lower (rs.base.view cv) f it.1 = true ∧ r = ⟨it.1, env.dist qv it.2⟩ := by
+    intro r hr
+    have := hknn.mem_cands hr
+    simp only [C04.candsOf, List.mem_map, List.mem_filter] at this
+    obtain ⟨it, ⟨h1, h2⟩, rfl⟩ := this
+    exact ⟨it, h1, h2, rfl⟩
+  have hrlive : ∀ r ∈ res, ∃ u, C01.AL.get rs.base.shard.pts.nI r.id.toNat = some u := by
+    intro r hr
+    obtain ⟨it, hit, _, rfl⟩ := hrc r hr
+    exact hlive it.1 it.2 hit
+  have hidnd : (res.map (·.id)).Nodup := by
+    obtain ⟨dropped, hperm, _⟩ := hknn.split
+    have hc : ((C04.candsOf (passOf lower (rs.base.view cv) f) (env.dist qv) E).map (·.id)).Nodup := by
+      have : (C04.candsOf (passOf lower (rs.base.view cv) f) (env.dist qv) E).map (·.id) =
+          (E.filter fun it => passOf lower (rs.base.view cv) f it.1).map (·.1) := by
+        simp [C04.candsOf, List.map_map, Function.comp_def]
+      rw [this]
+      exact (List.Sublist.map _ List.filter_sublist).nodup hEn
+    have := (hperm.map (·.id)).nodup_iff.1 hc
+    rw [List.map_append] at this
+    exact (List.nodup_append.1 this).1
+  have hnatnd : (res.map (·.id.toNat)).Nodup := by
+    have : res.map (·.id.toNat) = (res.map (·.id)).map (·.toNat) := by simp [List.map_map, Function.comp_def]
+    rw [this]
+    exact C01.nodup_map_of_inj_on _ _ hidnd (fun a _ b _ h => BitVec.eq_of_toNat_eq h)
+  refine ⟨hnatnd, hrlive, ?_, ?_, ?_, ?_, ?_⟩
+  · -- one row per uuid
+    have : (res.map fun r => (uuidAt rs.base.shard.pts r.id.toNat, r.d)).map (·.1) =
+        (res.map (·.id.toNat)).map (uuidAt rs.base.shard.pts) := by simp [List.map_map, Function.comp_def]
+    rw [this]
+    apply C01.nodup_map_of_inj_on _ _ hnatnd
+    intro a ha b hb hab
+    obtain ⟨ra, hra, rfl⟩ := List.mem_map.1 ha
+    obtain ⟨rb, hrb, rfl⟩ := List.mem_map.1 hb
+    obtain ⟨ua, hua⟩ := hrlive ra hra
+    obtain ⟨ub, hub⟩ := hrlive rb hrb
+    rw [uuidAt_of hua, uuidAt_of hub] at hab
+    subst hab
+    have k1 := (hp.bij _ _).mpr hua
+    have k2 := (hp.bij _ _).mpr hub
+    rw [k1] at k2; exact Option.some.inj k2
+  · -- candidates only
+    intro a ha
+    obtain ⟨r, hr, rfl⟩ := List.mem_map.1 ha
+    obtain ⟨it, hit, hps, rfl⟩ := hrc r hr
+    obtain ⟨u, hu⟩ := hlive it.1 it.2 hit
+    show FlatCand lower cv env rs.base.schema (C01.abs rs.base.shard) path qv f (uuidAt rs.base.shard.pts it.1.toNat) (env.dist qv it.2)
+    rw [uuidAt_of hu]
+    exact hcand_of it.1 it.2 u hit hps hu
+  · rw [List.pairwise_map]; exact hknn.sorted
+  · rw [List.length_map, hknn.length]; exact Nat.min_le_left _ _
+  · intro u d hc hnot
+    obtain ⟨i, v, hl, hiv, hps, rfl⟩ := hof_cand u d hc
+    obtain ⟨dropped, hperm, hdrop⟩ := hknn.split
+    have hcm : (⟨i, env.dist qv v⟩ : C04.Res D) ∈ C04.candsOf (passOf lower (rs.base.view cv) f) (env.dist qv) E := by
+      simp only [C04.candsOf, List.mem_map, List.mem_filter]
+      exact ⟨(i, v), ⟨hiv, hps⟩, rfl⟩
+    rcases List.mem_append.1 (hperm.mem_iff.1 hcm) with h1 | h1
+    · exfalso; apply hnot
+      refine List.mem_map.2 ⟨(uuidAt rs.base.shard.pts i.toNat, env.dist qv v), List.mem_map.2 ⟨_, h1, rfl⟩, ?_⟩
+      exact uuidAt_of hl
+    · have hlen := hperm.length_eq
+      rw [List.length_append] at hlen
+      have hpos : 0 < dropped.length := List.length_pos_of_mem h1
+      have hmin := hknn.length
+      refine ⟨by rw [List.length_map]; omega, ?_⟩
+      intro a ha
+      obtain ⟨r, hr, rfl⟩ := List.mem_map.1 ha
+      exact hdrop r hr _ h1
+
+end flat
+
+section textleaf
+variable [DecidableEq T]
+
+/-- `A` (uuid, score — in answer order) is an exact answer of the text query on the reference map: matching
+documents only, each once, best score first, at most `limit`, every score the tf-idf formula over the
+CURRENT reference map, and a matching document is left out only when `limit` rows are returned and none of
+them scores lower -/
+structure IsTextAnswer (lower : Bytes → Bytes) (cv : Conv) (env : Env V T D S W) (schema : List (List String × C02.Kind))
+    (coll : C01.Coll) (path : List String) (terms : List T) (all : Bool) (limit : Nat) (f : Option C02.Query)
+    (le : S → S → Prop) (A : List (Uuid × S)) : Prop where
+  nodup : (A.map (·.1)).Nodup
+  matching : ∀ a ∈ A, TextMatch lower cv env schema coll path terms all f a.1
+  score : ∀ a ∈ A, a.2 = refScore cv env path coll (C05.dedup terms) a.1
+  sorted : A.Pairwise (fun a b => le b.2 a.2)
+  short : A.length ≤ limit
+  complete : ∀ u, TextMatch lower cv env schema coll path terms all f u → u ∉ A.map (·.1) →
+    A.length = limit ∧ ∀ a ∈ A, le (refScore cv env path coll (C05.dedup terms) u) a.2
+
+theorem refN_eq (cv : Conv) (env : Env V T D S W) (path : List String) {p : Points} (hp : PInv p) :
+    C05.specNumDocs (refCorpus cv env path p.pI (C01.absP p)) = refN cv env path (C01.absP p) := by
+  unfold C05.specNumDocs refN
+  rw [refCorpus_eq, length_mkCorpus]
+  show _ = (List.filter _ (p.pI.map fun e => (e.1, C01.AL.get p.nD e.2))).length
+  rw [List.filter_map, List.length_map]
+  congr 1
+  apply List.filter_congr
+  intro e he
+  simp only [Function.comp_def]
+  rw [refToks_abs cv env path (hp.mem_pI he)]
+
+theorem refDf_eq (cv : Conv) (env : Env V T D S W) (path : List String) {p : Points} (hp : PInv p) (t : T) :
+    C05.specDf (refCorpus cv env path p.pI (C01.absP p)) t = refDf cv env path (C01.absP p) t := by
+  unfold C05.specDf refDf
+  rw [refCorpus_eq, df_mkCorpus]
+  show _ = (List.filter _ (p.pI.map fun e => (e.1, C01.AL.get p.nD e.2))).length
+  rw [List.filter_map, List.length_map]
+  congr 1
+  apply List.filter_congr
+  intro e he
+  simp only [Function.comp_def]
+  rw [refToks_abs cv env path (hp.mem_pI he)]
+
+/-- C05's score over the corpus = the formula read off the reference map -/
+theorem specScore_ref (cv : Conv) (env : Env V T D S W) (path : List String) {p : Points} (hp : PInv p) {u : Uuid} {n : Nat}
+    (hl : C01.AL.get p.nI n = some u) (ts : List T) :
+    C05.specScore env.ops (refCorpus cv env path p.pI (C01.absP p)) ts n = refScore cv env path (C01.absP p) ts u := by
+  have hpu := (hp.bij u n).mpr hl
+  have hget : (refCorpus cv env path p.pI (C01.absP p)).get n = refToks cv env path (C01.absP p) u := by
+    rw [refCorpus_get cv env path hp, refToks_abs cv env path hpu]
+  unfold C05.specScore refScore
+  simp only [hget, refN_eq cv env path hp, refDf_eq cv env path hp]
+
+/-- C05's match condition on the corpus = the documented one on the reference map -/
+theorem matches_iff {lower : Bytes → Bytes} {cv : Conv} {st : State} (hI : Inv lower cv st) (env : Env V T D S W)
+    (path : List String) (terms : List T) (all : Bool) (limit : Nat) (f : Option C02.Query)
+    (hfw : filterWf (st.view cv) f = true) (hfv : ∀ q, f = some q → q.Valid) (n : Nat) :
+    C05.Matches (refCorpus cv env path st.shard.pts.pI (C01.abs st.shard))
+        ⟨terms, all, preFilter lower (st.view cv) f, limit⟩ n ↔
+      ∃ u, C01.AL.get st.shard.pts.nI n = some u ∧
+        TextMatch lower cv env st.schema (C01.abs st.shard) path terms all f u := by
+  have hp := hI.store.pts
+  have hget : (refCorpus cv env path st.shard.pts.pI (C01.abs st.shard)).get n =
+      toksAt env path (idxData cv (C01.AL.get st.shard.pts.nD n)) := refCorpus_get cv env path hp n
+  have href : ∀ u, C01.AL.get st.shard.pts.nI n = some u →
+      refToks cv env path (C01.abs st.shard) u = toksAt env path (idxData cv (C01.AL.get st.shard.pts.nD n)) :=
+    fun u hl => refToks_abs cv env path ((hp.bij u n).mpr hl)
+  unfold C05.Matches TextMatch
+  simp only [hget]
+  constructor
+  · rintro ⟨h1, h2, h3, h4⟩
+    have hlive : ∃ u, C01.AL.get st.shard.pts.nI n = some u := by
+      cases hd : C01.AL.get st.shard.pts.nD n with
+      | none => rw [hd] at h2; simp [idxData, toksAt_none] at h2
+      | some d =>
+        have := hp.nD_live n (by rw [hd]; rfl)
+        cases hn : C01.AL.get st.shard.pts.nI n with
+        | none => rw [hn] at this; cases this
+        | some u => exact ⟨u, rfl⟩
+    obtain ⟨u, hl⟩ := hlive
+    refine ⟨u, hl, h1, by rw [href u hl]; exact h2, by rw [href u hl]; exact h3, ?_⟩
+    rintro q rfl
+    have hmem := h4 _ rfl
+    obtain ⟨i, hi, hin⟩ := List.mem_map.1 hmem
+    have hl' : C01.AL.get st.shard.pts.nI i.toNat = some u := by rw [hin]; exact hl
+    have h5 := (C02.C02_tree lower (view_inv hI) q hfw (hfv q rfl) i).1 hi
+    have h6 := (sat_iff hI hl' q).1 h5
+    refine ⟨C01.AL.get st.shard.pts.nD n, abs_get_live hp hl, ?_⟩
+    have : docAt cv st.shard.pts i = idxData cv (C01.AL.get st.shard.pts.nD n) := by
+      unfold docAt idxData; rw [hin]
+    rw [← this]; exact h6
+  · rintro ⟨u, hl, h1, h2, h3, h4⟩
+    rw [href u hl] at h2 h3
+    refine ⟨h1, h2, h3, ?_⟩
+    intro fl hfl
+    cases f with
+    | none => simp [preFilter] at hfl
+    | some q =>
+      simp only [preFilter, Option.map_some, Option.some.injEq] at hfl
+      subst hfl
+      obtain ⟨doc, hdoc, hsat⟩ := h4 q rfl
+      have hdoc2 : C01.AL.get (C01.abs st.shard) u = some (C01.AL.get st.shard.pts.nD n) := abs_get_live hp hl
+      rw [hdoc2] at hdoc
+      have hdoc' := Option.some.inj hdoc
+      have hlt := hI.liveBound n u hl
+      have hl' : C01.AL.get st.shard.pts.nI (nid n).toNat = some u := by rw [nid_toNat hlt]; exact hl
+      have h6 : docSat lower st.schema q u (docAt cv st.shard.pts (nid n)) := by
+        rw [docAt_nid cv _ hlt, hdoc']; exact hsat
+      have h5 := (sat_iff hI hl' q).2 h6
+      have hi := (C02.C02_tree lower (view_inv hI) q hfw (hfv q rfl) (nid n)).2 h5
+      exact List.mem_map.2 ⟨nid n, hi, nid_toNat hlt⟩
+
+/-- **the text leaf.** In a state satisfying the invariant, `indexText.Search` succeeds, returns live node
+ids, each once, hybrid score = weight · score, and read as (uuid, score) its answer is an exact answer on
+the reference map. -/
+theorem text_leaf_ref {lower : Bytes → Bytes} {cv : Conv} {env : Env V T D S W} {rs : RState V T}
+    (hR : RInv lower cv env rs) (orc : SOracle V T S) (le : S → S → Prop)
+    (add_comm : ∀ a b, env.ops.add a b = env.ops.add b a)
+    (add_assoc : ∀ a b c, env.ops.add (env.ops.add a b) c = env.ops.add a (env.ops.add b c))
+    (htperm : ∀ l, (orc.tsort l).Perm l) (htsorted : ∀ l, (orc.tsort l).Pairwise (fun a b => le b.score a.score))
+    (htord : ∀ id l, (orc.tord id l).Perm l)
+    {path : List String} {tx : TextIx T} (htx : rs.text path = some tx)
+    (terms : List T) (all : Bool) (limit : Nat) (w : W) (f : Option C02.Query)
+    (hfw : filterWf (rs.base.view cv) f = true) (hfv : ∀ q, f = some q → q.Valid) :
+    ∃ set res, textSearch lower cv env orc rs tx terms all limit w f = some (set, res) ∧
+      (∀ n, n ∈ set ↔ n ∈ res.map (·.id)) ∧ (res.map (·.id)).Nodup ∧
+      (∀ r ∈ res, ∃ u, C01.AL.get rs.base.shard.pts.nI r.id = some u) ∧
+      (∀ r ∈ res, r.hybrid = env.ops.scale w r.score) ∧
+      IsTextAnswer lower cv env rs.base.schema (C01.abs rs.base.shard) path terms all limit f le
+        (res.map fun r => (uuidAt rs.base.shard.pts r.id, r.score)) := by
+  have hI := hR.base
+  have hp := hI.store.pts
+  obtain ⟨hmem, hpath⟩ := find?_path (fun tx : TextIx T => tx.path) htx
+  have hinv := hR.text tx hmem
+  rw [hpath] at hinv
+  obtain ⟨set, res, hs, hset, hnd, hmatch, hshort, hcomplete, hsorted, hscore⟩ :=
+    C05.C05_match env.ops le add_comm add_assoc orc.tsort htperm htsorted hinv
+      ⟨terms, all, preFilter lower (rs.base.view cv) f, limit⟩ w (fun id => orc.tord id (C05.dedup terms))
+      (fun id => htord id _)
+  have hmi := matches_iff hI env path terms all limit f hfw hfv
+  have hrlive : ∀ r ∈ res, ∃ u, C01.AL.get rs.base.shard.pts.nI r.id = some u ∧
+      TextMatch lower cv env rs.base.schema (C01.abs rs.base.shard) path terms all f u :=
+    fun r hr => (hmi r.id).1 (hmatch r hr)
+  refine ⟨set, res, hs, hset, hnd, fun r hr => (hrlive r hr).imp fun u h => h.1, fun r hr => (hscore r hr).2, ?_, ?_, ?_, ?_, ?_, ?_⟩
+  · have : (res.map fun r => (uuidAt rs.base.shard.pts r.id, r.score)).map (·.1) =
+        (res.map (·.id)).map (uuidAt rs.base.shard.pts) := by simp [List.map_map, Function.comp_def]
+    rw [this]
+    apply C01.nodup_map_of_inj_on _ _ hnd
+    intro a ha b hb hab
+    obtain ⟨ra, hra, rfl⟩ := List.mem_map.1 ha
+    obtain ⟨rb, hrb, rfl⟩ := List.mem_map.1 hb
+    obtain ⟨ua, hua, _⟩ := hrlive ra hra
+    obtain ⟨ub, hub, _⟩ := hrlive rb hrb
+    rw [uuidAt_of hua, uuidAt_of hub] at hab
+    subst hab
+    have k1 := (hp.bij _ _).mpr hua
+    have k2 := (hp.bij _ _).mpr hub
+    rw [k1] at k2; exact Option.some.inj k2
+  · intro a ha
+    obtain ⟨r, hr, rfl⟩ := List.mem_map.1 ha
+    obtain ⟨u, hu, hm⟩ := hrlive r hr
+    show TextMatch lower cv env rs.base.schema (C01.abs rs.base.shard) path terms all f (uuidAt rs.base.shard.pts r.id)
+    rw [uuidAt_of hu]; exact hm
+  · intro a ha
+    obtain ⟨r, hr, rfl⟩ := List.mem_map.1 ha
+    obtain ⟨u, hu, _⟩ := hrlive r hr
+    show r.score = refScore cv env path (C01.abs rs.base.shard) (C05.dedup terms) (uuidAt rs.base.shard.pts r.id)
+    rw [uuidAt_of hu, (hscore r hr).1]
+    exact specScore_ref cv env path hp hu _
+  · rw [List.pairwise_map]; exact hsorted
+  · rw [List.length_map]; exact hshort
+  · intro u hm hnot
+    obtain ⟨doc, hdoc, _⟩ : ∃ doc, C01.AL.get (C01.abs rs.base.shard) u = some doc ∧ True := by
+      have h2 := hm.2.1
+      unfold refToks at h2
+      cases hg : C01.AL.get (C01.abs rs.base.shard) u with
+      | none => rw [hg] at h2; exact absurd rfl h2
+      | some doc => exact ⟨doc, rfl, trivial⟩
+    obtain ⟨n, hn, _, _⟩ := abs_get_some hI hdoc
+    have hmn := (hmi n).2 ⟨u, hn, hm⟩
+    have hnotn : n ∉ res.map (·.id) := by
+      intro hin
+      obtain ⟨r, hr, hrn⟩ := List.mem_map.1 hin
+      apply hnot
+      refine List.mem_map.2 ⟨(uuidAt rs.base.shard.pts r.id, r.score), List.mem_map.2 ⟨r, hr, rfl⟩, ?_⟩
+      show uuidAt rs.base.shard.pts r.id = u
+      rw [hrn]; exact uuidAt_of hn
+    obtain ⟨h1, h2⟩ := hcomplete n hmn hnotn
+    refine ⟨by rw [List.length_map]; exact h1, ?_⟩
+    intro a ha
+    obtain ⟨r, hr, rfl⟩ := List.mem_map.1 ha
+    have e : C05.specScore env.ops (refCorpus cv env path rs.base.shard.pts.pI (C01.abs rs.base.shard)) (C05.dedup terms) n =
+        refScore cv env path (C01.abs rs.base.shard) (C05.dedup terms) u := specScore_ref cv env path hp hn _
+    have this' : le (C05.specScore env.ops (refCorpus cv env path rs.base.shard.pts.pI (C01.abs rs.base.shard)) (C05.dedup terms) n)
+        r.score := h2 r hr
+    rw [e] at this'
+    exact this'
+
+end textleaf
+
+end read
+
 end Sema.Compose
